@@ -450,6 +450,14 @@ func checkImplicit200(c *Check, m *ssa.Function, unders []ssa.CallInstruction, w
 			c.Bad(key, p.Pos(u.Pos()), "a path reaches the underlying "+what+" before any status line and without the implicit WriteHeader(200) through the wrapper", blockPath(path))
 		}
 	}
+	// the operation commits the response whatever the underlying writer can do: no return
+	// without a status line having been sent (e.g. Flush on a writer that is no http.Flusher)
+	key := p.FuncKey(m) + ":commits"
+	if in, path := (Query{Fn: m, Cut: cut, Avoid: implicit}).FromEntry(isReturn); in == nil {
+		c.OK(key, p.FuncPos(m), what+" returns only after a status line was sent (Written() already, or the implicit WriteHeader(200))", numInstrs(m))
+	} else {
+		c.Bad(key, p.Pos(in.Pos()), what+" can return without having committed the status: Status() stays 0 and a later WriteHeader is still honoured although a write/flush came first", blockPath(path))
+	}
 }
 
 // checkDescendingHookLoop verifies that fn invokes beforeFuncs[i] with i
